@@ -192,7 +192,9 @@ def closure_closure(F, b, depth=2):
 
 
 def has_sign_check(F, b):
-    """A comparison of an element with zero() (ordering) somewhere in the function or its closures."""
+    """'nan-safe' if some element is required to satisfy `0 <= x` (false for NaN, so NaN is rejected too);
+    'nan-unsafe' if elements are only tested with `x < 0` (NaN slips through); None if no element-wise sign test."""
+    best = None
     for x in closure_closure(F, b):
         ev, paths = rules.evaluate(x)
         for r in paths or []:
@@ -204,13 +206,18 @@ def has_sign_check(F, b):
                 terms.append(r.ret)
             for t in terms:
                 for y in sym.subterms(t):
-                    if isinstance(y, tuple) and y and y[0] == 'bin' and y[1] in ('Lt', 'Le'):
+                    if isinstance(y, tuple) and y and y[0] == 'bin' and y[1].split('.')[0] in ('Lt', 'Le'):
                         ops = (y[2], y[3])
                         if any(o[0] == 'k' and o[1] == 'zero' for o in ops):
-                            other = ops[0] if ops[1][0] == 'k' else ops[1]
-                            if not (other[0] == 'k') and not sym.is_int(other):
-                                return True
-    return False
+                            zero_left = ops[0][0] == 'k' and ops[0][1] == 'zero'
+                            other = ops[1] if zero_left else ops[0]
+                            if other[0] == 'k' or sym.is_int(other):
+                                continue
+                            # Le(zero, x) / Lt(zero, x): "x is (strictly) non-negative" - NaN fails it
+                            kind = 'nan-safe' if zero_left else 'nan-unsafe'
+                            if kind == 'nan-safe' or best is None:
+                                best = kind
+    return best
 
 
 def has_len_guard(F, b):
@@ -246,8 +253,15 @@ def check_sibling_agreement(ctx, F):
         role_name = vdefs(F).get(b.defpath)
         key = 'R4/sign-check/' + (('validator:' + role_name) if role_name else b.defpath)
         role = 'monotonicity is enforced: every weight passes a sign test (or the fixed-point cdf is validated)'
-        if has_sign_check(F, b) or output_validated(F, b):
-            ctx.ok('R4', role, b.defpath, 'element-wise comparison with zero() found' if has_sign_check(F, b) else 'output passes accumulate_nonzero_probabilities', key=key)
+        sc = has_sign_check(F, b)
+        takes_normalization = role_name == 'float_fast' or 'Option<' in (b.raw.get('sig') or '')
+        if output_validated(F, b):
+            ctx.ok('R4', role, b.defpath, 'output passes the fixed-point validator', key=key)
+        elif sc == 'nan-safe' or (sc == 'nan-unsafe' and not takes_normalization):
+            ctx.ok('R4', role, b.defpath, 'element-wise test `0 <= x` (rejects negative and NaN entries)' if sc == 'nan-safe'
+                   else 'element-wise test `x < 0`; NaN entries are caught by the normalization, which is always computed from the entries here', key=key)
+        elif sc == 'nan-unsafe':
+            ctx.bad('R4', role, b.defpath, 'entries are only tested with `x < 0`, which a NaN entry passes, while the normalization may be supplied by the caller (so it does not catch the NaN either): the resulting cdf is not monotone', key=key, loc=rules.loc(b))
         else:
             ctx.bad('R4', role, b.defpath, 'no element is ever compared with zero and the resulting cdf is not validated: a negative weight (e.g. [3.0, -2.0, 1.0], positive sum) yields a non-monotone cdf', key=key, loc=rules.loc(b))
         k2 = 'R4/length-guard/' + (('validator:' + role_name) if role_name else b.defpath)
@@ -476,7 +490,7 @@ def check_constructor_narrowing(ctx, F):
     """An integer constructor argument that is narrowed must first be bounded from above (or round-trip
     checked) on its un-narrowed value: otherwise a huge argument aliases a small, valid-looking one."""
     import props.C09 as c09
-    W = c09.Wide(F)
+    W = c09.Wide(F, lossy_wrapping=True)
     adts = model_adts(F)
     n = 0
     for b in F.bodies:
